@@ -115,6 +115,11 @@ add("lang", "block", "{ extern long gi; }", "{ extern int gf; }", "{ extern int 
 add("lang", "file", "static int sk%d; void sf%d(void) { int sk%d; { extern int sk%d; } }", "int la%d __asm__(\"x%d\"); void lf%d(void) { extern int la%d __asm__(\"y%d\"); }",
     "typedef int tk%d; void tf%d(void) { extern int tk%d; }"[:0] or "enum { ek%d }; void ef%d(void) { extern int ek%d; }")
 
+# an alignment specifier may not be weaker than the alignment of the *declared* type, which the declarator can raise (6.7.5p4)
+add("lang", "file", "_Alignas(4) int *q%d;", "_Alignas(2) short sa%d, *ps%d;", "static _Alignas(1) char *tab%d[4];", "_Alignas(4) long (*pa%d)[2];", "_Alignas(4) int (*pf%d)(void);", "_Alignas(int) void *pv%d;",
+    "_Alignas(1) char ok%d, **bad%d;")
+add("lang", "block", "{ _Alignas(4) int *lq%d; }", "{ static _Alignas(2) short *ls%d; }", "{ _Alignas(4) char *la%d[2]; }")
+
 # ---- unsupported features ------------------------------------------------------------------------------------
 add("unsup", "file", "_Atomic int q%d;", "_Atomic(int) q%d;", "int _Atomic q%d;", "_Complex double q%d;", "double _Complex q%d;", "long double q%d = 1.0L;", "struct __attribute__((aligned(8))) ua%d { char c; };",
     "struct __attribute__((packed)) up%d { int a:3; };", "__attribute__((aligned(8))) int q%d;", "[[gnu::packed]] int q%d;", "__asm__(\"nop\");", "long double q%d(long double a) { return a + 1; }",
